@@ -575,11 +575,14 @@ class EllipsoidalEnergyDescription(StrainEnergyDescriptionBase):
         c2 = self.params.cMatrix_2nd
         eigenstrain = self.params.eigenstrain
 
+        #Shear terms occur twice in a contraction over a symmetric index pair, so the columns of 
+        #the 6x6 arrays (and the final product with the eigenstrain) carry a weight of 2 for shear
+        w = np.array([1, 1, 1, 2, 2, 2])
         V = 4*np.pi/3 * np.prod(radius)
-        S = convert4To2rankTensor(self.Sijmn(self.Dijkl(radius, c4)))
+        S = convert4To2rankTensor(self.Sijmn(self.Dijkl(radius, c4))) * w
         eigFlat = convert2rankToVec(eigenstrain)
-        multTerm = np.matmul(c2, S - np.eye(6))
-        return -0.5 * V * np.matmul(eigFlat, np.matmul(multTerm, eigFlat))
+        multTerm = np.matmul(c2 * w, S - np.eye(6))
+        return -0.5 * V * np.matmul(eigFlat * w, np.matmul(multTerm, eigFlat))
 
     def strainEnergyBohm(self, radius):
         '''
@@ -606,14 +609,19 @@ class EllipsoidalEnergyDescription(StrainEnergyDescriptionBase):
         eigenstrain = self.params.eigenstrain
         cP2 = self.params.cPrec_2nd
 
+        #Shear terms occur twice in a contraction over a symmetric index pair, so the columns of 
+        #the 6x6 arrays (and the final product with the eigenstrain) carry a weight of 2 for shear
+        w = np.array([1, 1, 1, 2, 2, 2])
+        cM2 = cM2 * w
+        cP2 = cP2 * w
         V = 4*np.pi/3 * np.prod(radius)
-        S = convert4To2rankTensor(self.Sijmn(self.Dijkl(radius, cM4)))
+        S = convert4To2rankTensor(self.Sijmn(self.Dijkl(radius, cM4))) * w
         eigFlat = convert2rankToVec(eigenstrain)
         invTerm = np.linalg.inv(np.matmul(cP2 - cM2, S) + cM2)
         multTerm = np.matmul(invTerm, cP2)
         stressC = np.matmul(cM2, np.matmul(np.matmul(S, multTerm), eigFlat))
         stress0 = np.matmul(cM2, np.matmul(multTerm, eigFlat))
-        return -0.5 * V * np.matmul(eigFlat, stressC - stress0)
+        return -0.5 * V * np.matmul(eigFlat * w, stressC - stress0)
 
     def computeStrainEnergy(self, radius):
         return self.strainEnergyBohm(radius)
